@@ -49,6 +49,8 @@ def gen(ctx, tier, rng):
         ls = [l for l in ls if not any(k.search(l) for k in kf)]
         if name == "c08":    # the value-producing password-hashing ops are the backend-sensitive ones (Argon2 fill code, scrypt SSE / portable): keep them all
             pick = [l for l in ls if l.split(" ")[0] in ("pwhash.raw", "pwhash.str", "scrypt.raw", "scrypt.ll", "scrypt.str")] + [l for l in ls if l.split(" ")[0] not in ("pwhash.raw", "pwhash.str", "scrypt.raw", "scrypt.ll", "scrypt.str")][::step * 4]
+        elif name == "c04":  # the crafted Poly1305 final-reduction inputs (accumulator around 2^130 - 5) are backend-sensitive: keep every short onetimeauth line
+            pick = ls[::step] + [l for l in ls if l.startswith("onetimeauth ") and len(l) < 260]
         else:
             pick = ls[::step]
         lines += pick
